@@ -70,7 +70,7 @@ impl Scratch {
     pub fn build(&self, tracing: Tracing) -> Result<String, String> {
         let (mut p, _) = self.project()?;
         let path = self.dir.join("plutus.json");
-        p.build(false, tracing, path.clone(), BlueprintExport::OnlyBinaryInterface, None).map_err(|es| es.iter().map(|e| format!("{e:?}")).collect::<Vec<_>>().join("; ").chars().take(800).collect::<String>())?;
+        p.build(false, tracing, path.clone(), BlueprintExport::OnlyBinaryInterface, None).map_err(|es| show_errors(&es))?;
         std::fs::read_to_string(path).map_err(|e| e.to_string())
     }
 }
@@ -79,6 +79,20 @@ impl Drop for Scratch {
     fn drop(&mut self) {
         let _ = std::fs::remove_dir_all(&self.dir);
     }
+}
+
+/// compact description of a project error (the Debug impl renders a terminal diagnostic)
+pub fn show_error(e: &aiken_project::error::Error) -> String {
+    use aiken_project::error::Error;
+    match e {
+        Error::Parse { path, error, .. } => format!("parse error in {}: {:?}", path.display(), error),
+        Error::Type { path, error, .. } => format!("type error in {}: {}", path.display(), format!("{:?}", error).chars().take(600).collect::<String>()),
+        other => format!("{other}"),
+    }
+}
+
+pub fn show_errors(es: &[aiken_project::error::Error]) -> String {
+    es.iter().map(show_error).collect::<Vec<_>>().join("; ").chars().take(1500).collect()
 }
 
 pub fn silent() -> Tracing {
